@@ -25,7 +25,9 @@ Inductive sev :=
   (* POST /control/querylog_config (deprecated), each field present or absent *)
   | SLegacy (enabled anon : option bool) (obs : bool * bool * bool * bool)
   (* PUT /control/stats/config/update: a new statistics ignore list *)
-  | SStatsConf (srules : list bytes) (sign : list bool)
+  | SStatsConf (enabled : bool) (srules : list bytes) (sign : list bool)
+  (* Storage.UpdateAddress: a runtime record (host name from rDNS) for the address *)
+  | SRuntime (a : addr)
   | SFlush
   (* queryLog.rotate (what the hourly rotation check does when the oldest record
      is older than the interval): querylog.json -> querylog.json.1 *)
@@ -56,14 +58,18 @@ Inductive case :=
           (obs_db : option (list (list (bytes * bytes * N) * list (bytes * N) * N)))
   (* the REAL finder wrappers of internal/home/clients.go on a registry built by
      [ops]: findMultiple(ids).IgnoreQueryLog and shouldCountClient(ids) *)
-  | CFinder (ops : list op) (dhcp : list (addr * bytes)) (ids : list id) (obs_ignore_qlog obs_count : bool).
+  | CFinder (ops : list op) (dhcp : list (addr * bytes)) (ids : list id) (obs_ignore_qlog obs_count : bool)
+  (* the same with runtime records (Storage.UpdateAddress) for the addresses [rt] *)
+  | CFinderRt (ops : list op) (dhcp : list (addr * bytes)) (rt : list addr) (ids : list id) (obs_ignore_qlog obs_count : bool).
 
 Definition oracle (tbl : list (bytes * bool)) : bytes -> bool :=
   fun n => match bget n tbl with Some b => b | None => false end.
 
 Record rstate := {
   r_ix : index; r_dhcp : list (addr * bytes); r_sys : sys; r_qrules : list bytes;
-  r_qign : list (bytes * bool); r_srules : list bytes; r_sign : list (bytes * bool); r_st : store
+  r_qign : list (bytes * bool); r_srules : list bytes; r_sign : list (bytes * bool); r_st : store;
+  r_son : bool;                     (* StatsCtx.enabled *)
+  r_rt : list addr                  (* addresses with a runtime record *)
 }.
 
 Definition world_of (refuse : bool) (r : rstate) : world :=
@@ -75,22 +81,27 @@ Definition env_rep (refuse : bool) (r : rstate) : env := env_report (r_sys r) (w
 
 Definition set_ix ix (r : rstate) : rstate :=
   {| r_ix := ix; r_dhcp := r_dhcp r; r_sys := r_sys r; r_qrules := r_qrules r; r_qign := r_qign r;
-     r_srules := r_srules r; r_sign := r_sign r; r_st := r_st r |}.
+     r_srules := r_srules r; r_sign := r_sign r; r_st := r_st r; r_son := r_son r; r_rt := r_rt r |}.
 Definition set_dhcp t (r : rstate) : rstate :=
   {| r_ix := r_ix r; r_dhcp := t; r_sys := r_sys r; r_qrules := r_qrules r; r_qign := r_qign r;
-     r_srules := r_srules r; r_sign := r_sign r; r_st := r_st r |}.
+     r_srules := r_srules r; r_sign := r_sign r; r_st := r_st r; r_son := r_son r; r_rt := r_rt r |}.
 Definition set_sys c (r : rstate) : rstate :=
   {| r_ix := r_ix r; r_dhcp := r_dhcp r; r_sys := c; r_qrules := r_qrules r; r_qign := r_qign r;
-     r_srules := r_srules r; r_sign := r_sign r; r_st := r_st r |}.
+     r_srules := r_srules r; r_sign := r_sign r; r_st := r_st r; r_son := r_son r; r_rt := r_rt r |}.
 Definition set_qrules rules q (r : rstate) : rstate :=
   {| r_ix := r_ix r; r_dhcp := r_dhcp r; r_sys := r_sys r; r_qrules := rules; r_qign := q;
-     r_srules := r_srules r; r_sign := r_sign r; r_st := r_st r |}.
+     r_srules := r_srules r; r_sign := r_sign r; r_st := r_st r; r_son := r_son r; r_rt := r_rt r |}.
 Definition set_srules rules q (r : rstate) : rstate :=
   {| r_ix := r_ix r; r_dhcp := r_dhcp r; r_sys := r_sys r; r_qrules := r_qrules r; r_qign := r_qign r;
-     r_srules := rules; r_sign := q; r_st := r_st r |}.
+     r_srules := rules; r_sign := q; r_st := r_st r; r_son := r_son r; r_rt := r_rt r |}.
 Definition set_st st (r : rstate) : rstate :=
   {| r_ix := r_ix r; r_dhcp := r_dhcp r; r_sys := r_sys r; r_qrules := r_qrules r; r_qign := r_qign r;
-     r_srules := r_srules r; r_sign := r_sign r; r_st := st |}.
+     r_srules := r_srules r; r_sign := r_sign r; r_st := st; r_son := r_son r; r_rt := r_rt r |}.
+
+Definition set_son b rt (r : rstate) : rstate :=
+  {| r_ix := r_ix r; r_dhcp := r_dhcp r; r_sys := r_sys r; r_qrules := r_qrules r; r_qign := r_qign r;
+     r_srules := r_srules r; r_sign := r_sign r; r_st := r_st r; r_son := b; r_rt := rt |}.
+Definition rt_of (r : rstate) : addr -> bool := fun a => existsb (addr_eqb a) (r_rt r).
 
 Definition eqb_lentry (a b : lentry) : bool :=
   match a, b with
@@ -123,7 +134,7 @@ Definition conf_obs_ok (s : sys) (obs : bool * bool * bool * bool) : bool :=
 
 (** One operation of the histories the theorems are about ([hstep] of Model/LogPolicy). *)
 Definition do_hop (refuse : bool) (r : rstate) (o : hop) : rstate :=
-  let st := hstep (r_sys r, r_st r) o in
+  let st := hstep_gated (r_son r) (r_sys r, r_st r) o in
   set_st (snd st) (set_sys (fst st) r).
 
 Definition stat_key (s : sentry) : bytes * bytes :=
@@ -139,7 +150,10 @@ Definition stats_ok (ev : env) mac_of (st : store) obs_domains (obs_clients : li
 Definition step_ok (names : list bytes) refuse macs (r : rstate) (e : sev) : rstate * bool :=
   let mac_of := fun c => bget c macs in
   match e with
-  | SQuery q => (do_hop refuse r (HQuery (world_of refuse r) q), true)
+  | SQuery q =>
+      (do_hop refuse r (HQuery (world_of refuse r) q),
+       Bool.eqb (find_multiple (r_ix r) (fun a => zget a (r_dhcp r)) (rt_of r) (ids_of q))
+                (qlog_client_ignored (r_ix r) (fun a => zget a (r_dhcp r)) (ids_of q)))
   | SOp o => (set_ix (fst (step c08_cfg (r_ix r) o)) r, true)
   | SDhcp t => (set_dhcp t r, true)
   | SConf e a rules q0 obs =>
@@ -149,9 +163,11 @@ Definition step_ok (names : list bytes) refuse macs (r : rstate) (e : sev) : rst
   | SLegacy e a obs =>
       let r' := do_hop refuse r (HConf (CLegacy e a)) in
       (r', conf_obs_ok (r_sys r') obs)
-  | SStatsConf rules q0 =>
+  | SStatsConf e rules q0 =>
       let q := combine names q0 in
-      (set_srules rules q r, table_agrees rules q)
+      let c := sconf_put e rules {| sc_enabled := r_son r; sc_ignored := r_srules r |} in
+      (set_son (sc_enabled c) (r_rt r) (set_srules (sc_ignored c) q r), table_agrees rules q)
+  | SRuntime a => (set_son (r_son r) (a :: r_rt r) r, true)
   | SFlush => (do_hop refuse r HFlush, true)
   | SRotate => (do_hop refuse r HRotate, true)
   | SRoll => (do_hop refuse r HRoll, true)
@@ -200,7 +216,7 @@ Definition init_store : store :=
 
 Definition init_state anon qrules qign srules sign : rstate :=
   {| r_ix := empty_index; r_dhcp := []; r_sys := init_dns true anon; r_qrules := qrules; r_qign := qign;
-     r_srules := srules; r_sign := sign; r_st := init_store |}.
+     r_srules := srules; r_sign := sign; r_st := init_store; r_son := true; r_rt := [] |}.
 
 Definition case_ok (c : case) : bool :=
   match c with
@@ -213,6 +229,10 @@ Definition case_ok (c : case) : bool :=
   | CFinder ops dhcp ids oq oc =>
       let ix := run c08_cfg ops empty_index in
       Bool.eqb (qlog_client_ignored ix (fun a => zget a dhcp) ids) oq &&
+      Bool.eqb (stats_client_counted ix (fun a => zget a dhcp) ids) oc
+  | CFinderRt ops dhcp rt ids oq oc =>
+      let ix := run c08_cfg ops empty_index in
+      Bool.eqb (find_multiple ix (fun a => zget a dhcp) (fun a => existsb (addr_eqb a) rt) ids) oq &&
       Bool.eqb (stats_client_counted ix (fun a => zget a dhcp) ids) oc
   end.
 
@@ -228,4 +248,7 @@ Definition explain (c : case) :=
   | CFinder ops dhcp ids _ _ =>
       let ix := run c08_cfg ops empty_index in
       (qlog_client_ignored ix (fun a => zget a dhcp) ids, ([], []), [([], [], if stats_client_counted ix (fun a => zget a dhcp) ids then [1] else [0])])
+  | CFinderRt ops dhcp rt ids _ _ =>
+      let ix := run c08_cfg ops empty_index in
+      (find_multiple ix (fun a => zget a dhcp) (fun a => existsb (addr_eqb a) rt) ids, ([], []), [([], [], if stats_client_counted ix (fun a => zget a dhcp) ids then [1] else [0])])
   end.
